@@ -37,6 +37,13 @@ def handleC19 : List String → String
       let (sp, ca) := caretLine doc s e
       s!"{ln} {col} {sp} {ca}"
     | _, _, _ => "bad-op")
+  | ["renderline", d, s, e] =>
+    (match parseStr d, parseNat s, parseNat e with
+    | some doc, some s, some e =>
+      let (ln, col, txt) := getLineInfo doc s
+      let (sp, ca) := caretLine doc s e
+      s!"{ln} {col} {sp} {ca} {showStr txt}"
+    | _, _, _ => "bad-op")
   | _ => "bad-op"
 
 end Incan.Driver
